@@ -342,6 +342,22 @@ func (g *gen) setup() {
 	if g.p.wSort >= 100 {
 		g.addCol(genCol{"name", "string", []string{"", "concat"}[r.Intn(2)]})
 	}
+	// cheap multi-chunk population: rows around the 16K-chunk edges, inserted through Replay
+	if r.Intn(3) == 0 {
+		pool := []uint32{5, 63, 64, 16383, 16384, 16385, 16390, 20000, 32767, 32768, 32769, 40000}
+		var offs []string
+		for _, o := range pool {
+			if r.Intn(2) == 0 {
+				offs = append(offs, strconv.Itoa(int(o)))
+				g.live[o] = true
+			}
+		}
+		if len(offs) > 0 {
+			g.emit("p sparse " + strings.Join(offs, " "))
+			g.feat("sparse-multichunk")
+			g.feat("row-in-chunk>=1")
+		}
+	}
 }
 
 func (g *gen) addRandomCol() {
